@@ -8,6 +8,9 @@ BUILT = {
          "independent EM byte parser + row model; recovery obligation after faults", "4/C01"),
 }
 PLANNED = {}
+BUILT["C04"] = ("STOPGAP conversion: seeded sessions hold tables/Motl/StopgapMotl (arbitrary index labels), filter in place, convert, "
+                "write .star/.em with update_coord/reset_index, restart, load; foreign STOPGAP writer; disk faults and crashes; "
+                "renaming-table + parity model, independent STAR tokenizer and EM parser", "4/C04")
 BUILT["C11"] = ("MRC/REC/EM map files: seeded sessions write/read/convert over a shared namespace with foreign (other-software) files, "
                 "overwrite refusal, restarts, disk faults and crashes; independent MRC and EM byte parsers + array model", "4/C11")
 BUILT["C02"] = ("STAR files: seeded sessions write/read lists of tables; foreign actor drops STAR texts in every permitted layout "
